@@ -44,6 +44,24 @@ Sigs(e) ==
         (IF e.valid # VideoFrameValid(e.vc, e.data, e.key) THEN {VSig("ValidationVerdict", "validate_video_frame", ToString(<< e.vc, IF e.valid THEN "accepts-invalid" ELSE "rejects-valid" >>))} ELSE {})
     ELSE IF e.f = "audio_frame" THEN
         (IF e.valid # AudioFrameValid(e.ac, e.data) THEN {VSig("ValidationVerdict", "validate_audio_frame", ToString(<< e.ac, IF e.valid THEN "accepts-invalid" ELSE "rejects-valid" >>))} ELSE {})
+    ELSE IF e.f = "muxing_config" THEN
+        \* composition rule of validate_muxing_config (src/validation.rs): a stream is judged when it is completely
+        \* specified (then its sample frame, if given, is judged too); a codec without its parameters is an error
+        \* (audio codec "none" counts as no codec); at least one stream must be configured
+        LET vcomplete == e.vc_some /\ e.w_some /\ e.h_some /\ e.fps_some
+            realaudio == e.ac \in {"aac", "opus"}
+            acomplete == e.ac # "absent" /\ e.rate_some /\ e.ch_some
+            want == /\ (vcomplete => e.v_ok /\ (e.vf_given => e.vf_ok))
+                    /\ ~(e.vc_some /\ ~vcomplete)
+                    /\ (acomplete => e.a_ok /\ (e.af_given => e.af_ok))
+                    /\ ~(realaudio /\ ~acomplete)
+                    /\ (e.vc_some \/ realaudio)
+        IN (IF e.valid # want THEN {VSig("ValidationVerdict", "validate_muxing_config", IF e.valid THEN "accepts-invalid" ELSE "rejects-valid")} ELSE {})
+           \cup (IF e.valid # (e.nerr = 0) THEN {VSig("ValidationVerdict", "validate_muxing_config", "verdict-disagrees-with-error-list")} ELSE {})
+    ELSE IF e.f = "defaults" THEN
+        \* documented defaults: 1920x1080, 90 kHz media timescale, 2-second fragments; Opus is always 48 kHz
+        (IF e.frag_timescale # 90000 \/ e.frag_duration_ms # 2000 \/ e.frag_w # 1920 \/ e.frag_h # 1080 THEN {VSig("Defaults", "FragmentConfig", "value")} ELSE {})
+        \cup (IF e.opus_rate # 48000 THEN {VSig("Defaults", "OPUS_SAMPLE_RATE", "value")} ELSE {})
     ELSE IF e.f = "vcodec_fromstr" THEN
         (IF e.ok # (e.s \in VCodecNames) THEN {VSig("FromStr", "VideoCodec", IF e.ok THEN "accepts-unknown" ELSE "rejects-known")} ELSE {})
         \cup (IF e.ok /\ ~e.roundtrip THEN {VSig("FromStr", "VideoCodec", "display-does-not-parse-back")} ELSE {})
